@@ -113,7 +113,7 @@ typedef struct hx_txrec {
     int end_markers[2];
     int n_req_complete, n_res_complete, n_tx_complete;
     int rank[2];
-    int64_t rank_pos[2];       /* stream offset of the side when its rank was last raised        */
+    int64_t rank_pos[2];       /* 1 + stream offset of the side when its rank was last raised, 0 = never */
     int last_status;           /* response_status_number seen at the last RESPONSE_LINE          */
     int prog[2];               /* last sampled progress                                          */
     int cbs_after_complete;
